@@ -100,7 +100,7 @@ def run(module, cfg, generated=None, env=None, workers=None, timeout=1800, simul
         with open(os.path.join(tmp, module + '.cfg'), 'w') as fh:
             fh.write(cfg)
         w = str(workers or os.environ.get('VERIF_JOBS') or 'auto')
-        cmd = ['java', '-XX:+UseParallelGC', '-Xmx8g']
+        cmd = ['java', '-XX:+UseParallelGC', '-Xmx8g', '-Xss256m']
         if deque:
             cmd.append('-Dtlc2.tool.queue.IStateQueue=StateDeque')
         cmd += ['-cp', JAR, 'tlc2.TLC', '-workers', w, '-metadir', os.path.join(tmp, 'states'),
